@@ -411,6 +411,18 @@ func (fv *FV) run() {
 			fv.assumptionsUsed["package invariant (assumed): "+g.Text] = true
 		}
 	}
+	// package invariants of directly imported packages under contract (their
+	// package-level values are visible here through qualified identifiers)
+	if u.Pkg != nil && u.Pkg.Types != nil {
+		for _, imp := range u.Pkg.Types.Imports() {
+			if ps := fv.eng.specs[imp.Path()]; ps != nil && ps != u.Spec {
+				for _, g := range ps.Globals {
+					fv.assume(e, fv.specTermA(e, g, &specCtx{old: fv.entry}))
+					fv.assumptionsUsed["package invariant (assumed): "+g.Text] = true
+				}
+			}
+		}
+	}
 	if u.C != nil {
 		for _, cl := range u.C.Requires {
 			fv.assume(e, fv.specTermA(e, cl, &specCtx{old: fv.entry, bind: fv.entryVals}))
